@@ -78,28 +78,61 @@ def dominating_facts(body, x, depth=0, _cache=None):
             if "p" not in d or d["p"]["proj"]:
                 continue
             l = d["p"]["l"]
-            # follow plain copies
-            for _ in range(4):
-                df = flow.single_def(body, l)
-                if df and df["kind"] == "assign" and df["rv"]["k"] == "use" and "p" in df["rv"]["ops"][0] and not df["rv"]["ops"][0]["p"]["proj"]:
-                    l = df["rv"]["ops"][0]["p"]["l"]
-                else:
-                    break
-            assigns = _const_bool_assigns(body, l)
-            if not assigns:
-                continue
-            vals = paths.bool_values(t, True)
+            if src[0] == "local":
+                # switch_source already looked through copies and negations: src[1] is the stored boolean, src[2] its polarity
+                l = src[1]
+            else:
+                # follow plain copies
+                for _ in range(4):
+                    df = flow.single_def(body, l)
+                    if df and df["kind"] == "assign" and df["rv"]["k"] == "use" and "p" in df["rv"]["ops"][0] and not df["rv"]["ops"][0]["p"]["proj"]:
+                        l = df["rv"]["ops"][0]["p"]["l"]
+                    else:
+                        break
+            vals = paths.bool_values(t, src[2] if src[0] == "local" else True)
             vs = {vals.get(lab) for lab in reaching}
             if len(vs) != 1 or None in vs:
                 continue
             want = vs.pop()
-            blocks = [bi for bi, val in assigns if val == want]
-            if not blocks:
+            # the boolean is defined by constant assignments and/or by predicate calls: the edge value `want` can only come from a constant
+            # assignment of that value or from a call that returned it
+            contrib = []
+            okdefs = True
+            stack = [(l, 0)]
+            seen_l = set()
+            while stack and okdefs:
+                l2, dep = stack.pop()
+                if l2 in seen_l:
+                    continue
+                seen_l.add(l2)
+                for df in body.defs().get(l2, []):
+                    if df["kind"] == "mutarg" or df.get("proj"):
+                        okdefs = False
+                        break
+                    if df["kind"] == "assign":
+                        rv = df["rv"]
+                        o0 = rv["ops"][0] if rv.get("ops") else None
+                        if rv["k"] == "use" and isinstance(o0, dict) and o0.get("c") == "int" and o0.get("ty") == "bool":
+                            if (o0["v"] == "1") == want:
+                                contrib.append((df["bi"], None))
+                        elif rv["k"] == "use" and isinstance(o0, dict) and "p" in o0 and not o0["p"]["proj"] and dep < 4:
+                            stack.append((o0["p"]["l"], dep + 1))      # a plain copy (e.g. the return value of an inlined helper)
+                        else:
+                            okdefs = False
+                            break
+                    elif df["kind"] == "call":
+                        contrib.append((df["bi"], ("call", callee_def(df["term"]), want, df["bi"])))
+                    else:
+                        okdefs = False
+                        break
+            if not okdefs or not contrib:
                 continue
             inter = None
-            for bi in blocks:
-                f = dominating_facts(body, bi, depth + 1, _cache)
-                inter = set(f) if inter is None else (inter & f)
+            for bi, own in contrib:
+                f = set(dominating_facts(body, bi, depth + 1, _cache))
+                if own is not None:
+                    f.add(own)
+                inter = f if inter is None else (inter & f)
             facts |= (inter or set())
     return facts
 
